@@ -8,7 +8,7 @@ import numpy as np
 
 import lib
 
-FS, RS, IS = lib.FS, lib.RS, ""
+FS, RS, IS = lib.FS, lib.RS, "\ue002"
 
 RUN_READ = """
 Require Import ReadShow.
